@@ -190,7 +190,7 @@ def aggL (a : GridSrc.Agg) (x : Rat) (xs : List Rat) : Rat :=
 def tradeoff (cw obj : Rat) (gam : List Rat) : Option Rat :=
   match gam with
   | [] => none
-  | g :: gs => some (GridSrc.loss (GridSrc.objectiveWeight cw) cw obj (aggL GridSrc.gammaAgg g gs))
+  | g :: gs => some (GridSrc.loss cw obj (aggL GridSrc.gammaAgg g gs))
 
 /-- `losses.index(min(losses))` (which extreme: lifted; `list.index` = first position) -/
 def argminFirst : List Rat → Option Nat
